@@ -3,7 +3,7 @@ from dev_try import load
 import multistep
 fn, N = sys.argv[1], int(sys.argv[2])
 prog = load()
-job = {'kind': 'custom', 'name': fn, 'N': N, 'cfg': 'dev', 'props': ['C06', 'C07', 'C13'], 'how': sys.argv[3] if len(sys.argv) > 3 else 'remove', 'first': sys.argv[3] if len(sys.argv) > 3 else None}
+job = {'kind': 'custom', 'name': fn, 'N': N, 'cfg': 'dev', 'props': ['C06', 'C07', 'C13', 'C08'], 'how': sys.argv[3] if len(sys.argv) > 3 else 'remove', 'first': sys.argv[3] if len(sys.argv) > 3 else None}
 r = getattr(multistep, fn)(prog, job)
 v = r.pop('violations'); r.pop('samples'); r.pop('smt2')
 print(json.dumps(r, default=str))
